@@ -457,6 +457,26 @@ func runC06(c *Ctx) {
 						okAll = false
 						c.S.Bad("R4", k+":source in "+load.FuncName(s.Parent()), c.pos(s.Pos()), "the value written to this signed field does not derive from the request/context source the table lists")
 					}
+					// a field that is the caller's to name (changelist, commit, timestamp) is the caller's value on every
+					// path: nothing read from a certificate or the authority takes its place (the clock is the request's own default)
+					if k == "VMGoldenMeasurement.Timestamp" || k == "VMGoldenMeasurement.ClSpec" || k == "VMGoldenMeasurement.Commit" {
+						foreign := ""
+						sl4.Visit(s.Val, func(v ssa.Value) bool {
+							if call, ok := v.(*ssa.Call); ok {
+								switch {
+								case calleeIs(call, "crypto/x509.ParseCertificate"):
+									foreign = "a parsed certificate"
+								case invokeIs(call, stypPkg, "CertificateAuthority", "Certificate"), invokeIs(call, stypPkg, "CertificateAuthority", "CABundle"):
+									foreign = "the certificate authority"
+								}
+							}
+							return foreign == ""
+						}, nil)
+						if foreign != "" {
+							okAll = false
+							c.S.Bad("R4", k+":only the request in "+load.FuncName(s.Parent()), c.pos(s.Pos()), "the value signed in this field can come from "+foreign+" instead of the request: for some requests the document silently carries another value than the one the caller named")
+						}
+					}
 				}
 				if okAll {
 					c.S.OK("R4", k, c.pos(stores[0].Pos()), fmt.Sprintf("%d writer(s), all from the listed source", len(stores)), true)
